@@ -56,7 +56,7 @@ RV_MORE = [
 # programs too expensive for the deviation space; used by the inspected-vs-uninspected pairs only
 RV_HEAVY = [
     # more than 10 000 characters of console output (a 3 400-character string printed four times)
-    ("long-output", ".data\ns: .string \"" + "0123456789abcdefghijklmnopqrstuvwxyzABCDEFGHIJKLMNOPQRSTUVWXYZ+-=/" * 50 + "\"\n.text\nla a0, s\naddi a7, x0, 4\naddi x5, x0, 4\nloop: ecall\naddi x5, x5, -1\nbne x5, x0, loop\naddi x6, x0, 1\n"),
+    ("long-output", ".data\ns: .string \"" + "0123456789abcdefghijklmnopqrstuvwxyzABCDEFGHIJKLMNOPQRSTUVWXYZ+-=/" * 52 + "\"\n.text\nla a0, s\naddi a7, x0, 4\naddi x5, x0, 4\nloop: ecall\naddi x5, x5, -1\nbne x5, x0, loop\naddi x6, x0, 1\n"),
 ]
 CACHES = {
     "none": (None, None),
